@@ -256,6 +256,18 @@ def witnessMerkle (h : Bytes → Bytes) (txs : List Tx) : Option Bytes :=
 def blockWeight (txs : List Tx) : Nat :=
   4 * (80 + CompactSize.vlenSize txs.length) + (txs.map (fun t => 3 * t.noWitSize + t.size)).sum
 
+/-- `bl.BlockWeight` as BuildTxListExt leaves it for an object whose `bl.TxCount` was `cntOnEntry` when the function
+    was entered and whose parse yielded `txs`. The object keeps (TxCount, TxOffset): set by NewBlock / UpdateContent
+    from a whole serialisation, still 0 for an object made from the 80-byte header whose body was attached by
+    `bl.Raw = …` (the client's block download path) or reset by hand after a corrupt copy. The function starts with
+    the fallback `if bl.TxCount == 0 { bl.TxCount, bl.TxOffset = vlenWire(bl.Raw[80:]) … }`; after it `bl.TxCount`
+    is the number of transactions parsed on every entry path (it sizes `bl.Txs` and bounds the loop). WHERE the base
+    weight `4*(80+VLenSize(TxCount))` reads the counter relative to that statement is regenerated from the source
+    (`buildTxListReadsCountAfterFallback`): read before it, the counter is the value on entry. -/
+def builtWeight (cntOnEntry : Nat) (txs : List Tx) : Nat :=
+  4 * (80 + CompactSize.vlenSize (if buildTxListReadsCountAfterFallback then txs.length else cntOnEntry))
+    + (txs.map (fun t => 3 * t.noWitSize + t.size)).sum
+
 /-! ### PostCheckBlock -/
 
 inductive PostErr
@@ -280,6 +292,7 @@ structure PostIn where
   time : Nat                -- bl.BlockTime()
   merkleRoot : Bytes        -- bl.MerkleRoot()
   txs : List Tx             -- bl.Txs (after BuildTxList when it ran)
+  cntOnEntry : Nat := 0     -- bl.TxCount on entry (0: header-first object / hand reset; else set by UpdateContent)
 
 /-- the commitment search of PostCheckBlock: outputs of the coinbase from the last one down -/
 def findCommitment (outsRev : List Bytes) : Option Bytes :=
@@ -322,7 +335,7 @@ def postWitnessAndTxs (h : Bytes → Bytes) (flags : Nat) (i : PostIn) : Option 
 def postCheckBlock (h : Bytes → Bytes) (c : Consensus) (i : PostIn) : Option (PostErr × Nat) :=
   if i.rawLen < postMinRawLen then some (.badLength, 0)
   else if !i.preParsed && !i.buildOk then some (.buildFailed, 0)
-  else if !i.preParsed && decide (blockWeight i.txs > postMaxWeight) then some (.badWeight, 0)
+  else if !i.preParsed && decide (builtWeight i.cntOnEntry i.txs > postMaxWeight) then some (.badWeight, 0)
   else
     let cbErr : Option PostErr :=
       if i.trusted then none
@@ -399,11 +412,14 @@ structure BlockObj where
   build : Option (List Tx)        -- what BuildTxList() leaves in bl.Txs for this Raw: all of them, or those before the
                                   -- failing one; none = it returns before assigning (corrupt count field)
   buildOk : Bool                  -- BuildTxList() returned nil
+  rawCount : Nat := 0             -- the count field of Raw as vlenWire reads it (0: corrupt / absent)
   -- assigned by CheckBlock
   height : Nat
   mtp : Nat
   txs : Option (List Tx)          -- none = nil
   verifyFlags : Nat
+  txCount : Nat := 0              -- bl.TxCount: rawCount for NewBlock(whole serialisation); 0 for a header-first object
+                                  -- (body attached by `bl.Raw = …`); BuildTxList's fallback assigns it when it is 0
 
 /-- PreCheckBlock returned after `bl.Height = prevblk.Height + 1` -/
 def PreErr.setsHeight : PreErr → Bool
@@ -438,13 +454,16 @@ def afterPre (bl : BlockObj) (o : PreOut) : BlockObj :=
 /-- the inputs of `postCheckBlock` for a block object that passed PreCheckBlock -/
 def postInOf (bl : BlockObj) : PostIn :=
   { rawLen := bl.rawLen, preParsed := bl.txs.isSome, buildOk := bl.buildOk, trusted := bl.trusted, height := bl.height,
-    mtp := bl.mtp, time := bl.time, merkleRoot := bl.merkleRoot, txs := bl.txs.getD (bl.build.getD []) }
+    mtp := bl.mtp, time := bl.time, merkleRoot := bl.merkleRoot, txs := bl.txs.getD (bl.build.getD []),
+    cntOnEntry := bl.txCount }
 
 /-- the block object as PostCheckBlock leaves it: `bl.Txs` is assigned by BuildTxList when it was nil and the size
-    test passed; `bl.VerifyFlags` when ApplyBlockFlags was reached -/
+    test passed (and then `bl.TxCount`, when it was 0, by BuildTxList's fallback: the count field of Raw);
+    `bl.VerifyFlags` when ApplyBlockFlags was reached -/
 def afterPost (bl : BlockObj) (e : PostErr) (flags : Nat) : BlockObj :=
   { bl with txs := if bl.txs.isNone && decide (bl.rawLen ≥ postMinRawLen) then bl.build else bl.txs,
-            verifyFlags := if e.setsFlags then flags else bl.verifyFlags }
+            verifyFlags := if e.setsFlags then flags else bl.verifyFlags,
+            txCount := if bl.txs.isNone && decide (bl.rawLen ≥ postMinRawLen) && bl.txCount == 0 then bl.rawCount else bl.txCount }
 
 structure CheckRes where
   dos : Bool
